@@ -4052,7 +4052,19 @@ class mulgrid(object):
         justify = ['l', 'r'][self.right_justified_names]
         self.add_layers(thicknesses, top_elevation, justify, chars, spaces)
         # Preserve old atmosphere layer name:
-        self.rename_layer(self.layerlist[0].name, atm_name)
+        default_atm_name = self.layerlist[0].name
+        if atm_name != default_atm_name and atm_name in self.layer:
+            # a regenerated layer name clashes with it: name the layers again, leaving it out
+            justfn = [str.rjust, str.ljust][justify == 'l']
+            num = 0
+            for lay in self.layerlist[1:]:
+                name = atm_name
+                while name in [atm_name, default_atm_name]:
+                    num += 1
+                    name = self.layer_name_from_number(num, justfn, chars, spaces)
+                lay.name = name
+            self.layer = dict([(lay.name, lay) for lay in self.layerlist])
+        self.rename_layer(default_atm_name, atm_name)
         for col in self.columnlist: self.set_column_num_layers(col)
         self.setup_block_name_index()
         self.setup_block_connection_name_index()
